@@ -33,14 +33,14 @@ import (
 
 // RouteSpec is one prefix route of the single virtual host.
 type RouteSpec struct {
-	Prefix      string
-	Cluster     string
-	RetryOn     bool
-	NumRetries  uint32
-	StatusCodes []uint32
-	TimeoutMs   int // route (global) timeout, 0 = default
+	Prefix       string
+	Cluster      string
+	RetryOn      bool
+	NumRetries   uint32
+	StatusCodes  []uint32
+	TimeoutMs    int // route (global) timeout, 0 = default
 	TryTimeoutMs int
-	Extra       func(r *v2.Router)
+	Extra        func(r *v2.Router)
 }
 
 // ClusterSpec is one upstream cluster.
@@ -105,14 +105,14 @@ func BuildClusters(cs []ClusterSpec) []v2.Cluster {
 
 // ListenerSpec is a proxy listener.
 type ListenerSpec struct {
-	Name       string
-	Addr       string
-	Downstream string // Http1, Http2, X, Auto
-	Upstream   string
-	SubProto   string // for X: bolt, dubbo ...
-	Routes     []RouteSpec
+	Name          string
+	Addr          string
+	Downstream    string // Http1, Http2, X, Auto
+	Upstream      string
+	SubProto      string // for X: bolt, dubbo ...
+	Routes        []RouteSpec
 	StreamFilters []v2.Filter
-	Extra      func(l *v2.Listener)
+	Extra         func(l *v2.Listener)
 }
 
 func toMap(v interface{}) map[string]interface{} {
@@ -188,7 +188,35 @@ func WaitListen(addr string, d time.Duration) error {
 }
 
 // FreeAddr returns a loopback address that was free a moment ago (listener closed again).
+// FreeAddr returns a loopback address for a listener that is started later.  The port comes from a range below the
+// kernel's ephemeral ports (so no outgoing connection of a concurrent driver can take it in between), starts at a
+// pid-derived base (so concurrent drivers do not hand out the same one) and is never handed out twice by one process.
 func FreeAddr() string {
+	handedMu.Lock()
+	defer handedMu.Unlock()
+	base := 20000 + (os.Getpid()*131)%9000
+	for i := 0; i < 400; i++ {
+		port := base + i
+		if handed[port] {
+			continue
+		}
+		a := fmt.Sprintf("127.0.0.1:%d", port)
+		l, err := net.Listen("tcp", a)
+		if err == nil {
+			l.Close()
+			handed[port] = true
+			return a
+		}
+	}
+	return ephemeralAddr()
+}
+
+var (
+	handedMu sync.Mutex
+	handed   = map[int]bool{}
+)
+
+func ephemeralAddr() string {
 	l, err := net.Listen("tcp", "127.0.0.1:0")
 	if err != nil {
 		panic(err)
@@ -205,7 +233,7 @@ var reserved []int // fds of bound-but-never-listening sockets: kept open for th
 func RefusedAddr() string {
 	fd, err := syscall.Socket(syscall.AF_INET, syscall.SOCK_STREAM, 0)
 	if err != nil {
-		return FreeAddr()
+		return ephemeralAddr()
 	}
 	sa := &syscall.SockaddrInet4{Port: 0, Addr: [4]byte{127, 0, 0, 1}}
 	if err := syscall.Bind(fd, sa); err != nil {
@@ -223,18 +251,7 @@ func RefusedAddr() string {
 
 // ListenerAddr picks a listener address in a pid-derived range below the ephemeral ports, so that parallel
 // driver processes (shards, other checks) do not hand each other's freed ports around.
-func ListenerAddr() string {
-	base := 20000 + (os.Getpid()*131)%9000
-	for i := 0; i < 200; i++ {
-		a := fmt.Sprintf("127.0.0.1:%d", base+i)
-		l, err := net.Listen("tcp", a)
-		if err == nil {
-			l.Close()
-			return a
-		}
-	}
-	return FreeAddr()
-}
+func ListenerAddr() string { return FreeAddr() }
 
 // ListenerGauge reads a listener-level gauge/counter, e.g. metrics.DownstreamRequestActive.
 func ListenerGauge(listener, key string) int64 {
